@@ -719,6 +719,15 @@ func checkC18(c *Ctx, r *Report) {
 						walk(mu.Value)
 					}
 				}
+			case *ssa.UnOp:
+				// a named result spilled into a cell (functions with defer): every value stored into it
+				if al, ok := t.X.(*ssa.Alloc); ok && t.Op == token.MUL {
+					for _, ref := range *al.Referrers() {
+						if st, ok := ref.(*ssa.Store); ok && st.Addr == ssa.Value(al) {
+							walk(st.Val)
+						}
+					}
+				}
 			}
 		}
 		for _, rt := range returnsOf(rv) {
